@@ -97,6 +97,20 @@ def copyS : Stage Unit α α where
   react _ a := ((), [⟨0, a, .sel⟩], .cont)
   final _ := []
 
+/-- `Seq(xs...)`: a channel of capacity `len(xs)` holding `xs`, already closed -/
+def seqChan (xs : List α) : Chan α := { buf := xs, cap := xs.length, closed := true }
+
+/-- `ToSeq(ch)`: `for x := range ch { seq = append(seq, x) }` — on a closed channel the loop takes the
+buffered elements one by one until the buffer is empty (fuel = buffer length) -/
+def toSeqLoop : Nat → Chan α → List α → List α
+  | 0, _, acc => acc
+  | n + 1, ch, acc =>
+    match ch.buf with
+    | [] => acc
+    | x :: rest => toSeqLoop n { ch with buf := rest } (acc ++ [x])
+
+def toSeq (ch : Chan α) : List α := toSeqLoop ch.buf.length ch []
+
 /-! pool configurations -/
 
 /-- a `pipe` stage: one goroutine reading input 0; `outCap` as `make` computes them; deferred closes
